@@ -41,6 +41,10 @@ func (c *Chooser) Pick(label string, n int) int {
 	return v
 }
 
+// Prefix returns the choices this execution is to replay before it takes defaults (for bodies that run the execution
+// in another process).
+func (c *Chooser) Prefix() []int { return append([]int{}, c.prefix...) }
+
 // Bool is Pick over {false,true}.
 func (c *Chooser) Bool(label string) bool { return c.Pick(label, 2) == 1 }
 
